@@ -298,12 +298,25 @@ def run(pid, tier, seed, a, t0):
     for c in cases:
         try:
             o = mod.impl(c)
-        except Exception as e:               # adapter bug: harness error, not a violation
-            log("adapter raised on case", canon(c)[:500]); raise
+        except Exception as e:
+            import traceback as _tb
+            frames = _tb.extract_tb(e.__traceback__)
+            lib = [f for f in frames if "/authlib/" in f.filename]
+            if not lib:                      # adapter bug: harness error, not a violation
+                log("adapter raised on case", canon(c)[:500]); raise
+            # the library itself raised on a case of this property's domain (no case does on the unchanged tree)
+            o = {"__impl_raised__": f"{type(e).__name__}: {str(e)[:160]}", "site": f"{lib[-1].filename.split('/authlib/')[-1]}:{lib[-1].name}"}
         impl_outs.append(o)
     model_outs = [None] * len(cases)
     if b.ok_driver and getattr(mod, "HAS_MODEL", True):
-        lines = [mod.model_line(c) if hasattr(mod, "model_line") else c for c in cases]
+        def _line(c, io):
+            if isinstance(io, dict) and "__impl_raised__" in io:
+                return None
+            try:
+                return mod.model_line(c) if hasattr(mod, "model_line") else c
+            except Exception:
+                return None
+        lines = [_line(c, io) for c, io in zip(cases, impl_outs)]
         idx = [i for i, l in enumerate(lines) if l is not None]
         try:
             outs = run_driver([dict(lines[i], prop=pid) for i in idx])
@@ -317,6 +330,11 @@ def run(pid, tier, seed, a, t0):
     first_disagree = None
     for c, io, mo in zip(cases, impl_outs, model_outs):
         stats["evaluations"] += 1
+        if isinstance(io, dict) and "__impl_raised__" in io:
+            stats["hist"]["impl-raised"] = stats["hist"].get("impl-raised", 0) + 1
+            violations.append({"what": f"the library raised {io['__impl_raised__']} (at {io['site']}) on an input of this property's domain that the statement requires it to handle",
+                               "sig": {"kind": "impl-raised", "exc": io["__impl_raised__"].split(":")[0], "site": io["site"]}, "case": c, "impl": io})
+            continue
         k = mod.classify(c, io) if hasattr(mod, "classify") else str(io)[:40]
         stats["hist"][k] = stats["hist"].get(k, 0) + 1
         nt = mod.nontrivial(c, io) if hasattr(mod, "nontrivial") else canon(c)
@@ -325,7 +343,14 @@ def run(pid, tier, seed, a, t0):
         if len(stats["samples"]) < 5 and rngpick(stats, k):
             stats["samples"].append({"case": trim(c), "impl": trim(io), "model": trim(mo)})
         # direct property oracle on the implementation
-        for what, sig in (mod.oracle(c, io) or []):
+        try:
+            verdicts = mod.oracle(c, io) or []
+        except Exception as e:               # the real code answered in a shape the statement oracle cannot read: a break, decided by the search below
+            verdicts = []
+            if not any(b_.get("kind") == "oracle-break" for b_ in breaks):
+                breaks.append({"kind": "oracle-break", "what": f"the statement oracle could not evaluate an implementation output: {type(e).__name__}: {e}",
+                               "first": {"case": c, "impl": trim(io)}})
+        for what, sig in verdicts:
             e = match_known(known, sig)
             if e is not None:
                 known_printed.setdefault(e["id"], (e, c))
